@@ -200,6 +200,101 @@ Proof. revert s. induction n; simpl; intro s; [auto|]. destruct (IHn (watch_put 
 Lemma etcd_iter_del k n s : etcd (iter n (watch_del k) s) = etcd s /\ nwatch (iter n (watch_del k) s) = nwatch s.
 Proof. revert s. induction n; simpl; intro s; [auto|]. destruct (IHn (watch_del k s)) as [A B]. rewrite A, B. auto. Qed.
 
+
+(* ------------------------------------------------------------------ several events in one response *)
+Definition bapply (m : amap) (evs : list bev) : amap := fold_left bev_step evs m.
+Definition bres (b : bev) : option val := match b with BPut _ v => Some v | BDel _ => None end.
+(* the last event of the batch that concerns k *)
+Definition bget (k : key) (evs : list bev) : option (option val) :=
+  fold_left (fun acc b => if Nat.eqb (bkey b) k then Some (bres b) else acc) evs None.
+
+Lemma bget_snoc k evs b : bget k (evs ++ [b]) = if Nat.eqb (bkey b) k then Some (bres b) else bget k evs.
+Proof. unfold bget. rewrite fold_left_app. reflexivity. Qed.
+
+Lemma kget_bapply evs : forall m k,
+  kget k (bapply m evs) = match bget k evs with Some r => r | None => kget k m end.
+Proof.
+  induction evs as [|b evs IH] using rev_ind; intros m k; [reflexivity|].
+  unfold bapply. rewrite fold_left_app. fold (bapply m evs). cbn [fold_left]. rewrite bget_snoc.
+  destruct b as [k0 v|k0]; cbn [bev_step bkey bres]; [rewrite kget_kset|rewrite kget_kdel];
+    rewrite (Nat.eqb_sym k k0); destruct (Nat.eqb k0 k); auto.
+Qed.
+
+Lemma bget_filter (u : key -> bool) items k :
+  bget k (filter (fun b => u (bkey b)) items) = if u k then bget k items else None.
+Proof.
+  induction items as [|x items IH] using rev_ind; [destruct (u k); reflexivity|].
+  rewrite filter_app. cbn [filter]. destruct (u (bkey x)) eqn:U.
+  - rewrite !bget_snoc, IH. destruct (Nat.eqb (bkey x) k) eqn:Q; [|reflexivity].
+    apply Nat.eqb_eq in Q; subst. rewrite U. reflexivity.
+  - rewrite app_nil_r, IH, bget_snoc. destruct (Nat.eqb (bkey x) k) eqn:Q; [|reflexivity].
+    apply Nat.eqb_eq in Q; subst. rewrite U. reflexivity.
+Qed.
+
+Lemma batch_pass (u : key -> bool) items E' m :
+  (forall k, u k = false -> kget k m = None) ->
+  (forall k, u k = true -> bget k items = None -> kget k m = kget k E') ->
+  (forall k r, bget k items = Some r -> kget k E' = r) ->
+  forall k, kget k (bapply m (filter (fun b => u (bkey b)) items)) = if u k then kget k E' else None.
+Proof.
+  intros H1 H2 H3 k. rewrite kget_bapply, bget_filter. destruct (u k) eqn:U; [|apply H1; assumption].
+  destruct (bget k items) eqn:B; [symmetry; apply H3; assumption|apply H2; assumption].
+Qed.
+
+Lemma ab_cons b evs s :
+  apply_batch (b :: evs) s = apply_batch evs (match b with BPut k v => watch_put k v s | BDel k => watch_del k s end).
+Proof. reflexivity. Qed.
+
+Lemma ab_etcd evs : forall s, etcd (apply_batch evs s) = etcd s /\ nwatch (apply_batch evs s) = nwatch s.
+Proof.
+  induction evs as [|b evs IH]; intro s; [auto|]. rewrite ab_cons. destruct (IH (match b with BPut k v => watch_put k v s | BDel k => watch_del k s end)) as [A B].
+  rewrite A, B. destruct b; auto.
+Qed.
+
+Lemma ab_cvals evs : forall s m, cvals s = Some m -> cvals (apply_batch evs s) = Some (bapply m evs).
+Proof.
+  induction evs as [|b evs IH]; intros s m C; [assumption|]. rewrite ab_cons. destruct b as [k v|k]; cbn [bapply fold_left bev_step].
+  - apply IH. unfold watch_put; simpl. rewrite C. reflexivity.
+  - apply IH. unfold watch_del; simpl. rewrite C. reflexivity.
+Qed.
+
+Lemma ab_subs evs : forall s, subs (apply_batch evs s) = map (fun l => l ++ map bcall evs) (subs s).
+Proof.
+  induction evs as [|b evs IH]; intro s.
+  - simpl. rewrite <- (map_id (subs s)) at 1. apply map_ext. intro l. rewrite app_nil_r. reflexivity.
+  - rewrite ab_cons, IH. destruct b as [k v|k]; simpl; unfold deliver; rewrite map_map; apply map_ext; intro l;
+      rewrite <- app_assoc; reflexivity.
+Qed.
+
+Lemma ab_watching evs : forall s, watching s -> watching (apply_batch evs s).
+Proof.
+  induction evs as [|b evs IH]; intros s W; [assumption|]. rewrite ab_cons. apply IH.
+  destruct b; [apply watching_put|apply watching_del]; assumption.
+Qed.
+
+Lemma nodup_bapply items : forall m, NoDup (map fst m) -> NoDup (map fst (bapply m items)).
+Proof.
+  induction items as [|b items IH]; intros m N; [assumption|]. cbn [bapply fold_left]. apply IH.
+  destruct b; [apply nodup_set|apply nodup_remove]; assumption.
+Qed.
+
+Lemma etcd_iter_batch evs n : forall s, etcd (iter n (apply_batch evs) s) = etcd s /\ nwatch (iter n (apply_batch evs) s) = nwatch s.
+Proof.
+  induction n; intro s; simpl; [auto|]. destruct (IHn (apply_batch evs s)) as [A B]. rewrite A, B. apply ab_etcd.
+Qed.
+
+Lemma batch_exact (u : key -> bool) items E' s :
+  etcd s = E' -> (forall k r, bget k items = Some r -> kget k E' = r) ->
+  (exists m, cvals s = Some m /\ (forall k, u k = false -> kget k m = None) /\
+             (forall k, u k = true -> bget k items = None -> kget k m = kget k E')) ->
+  etcd (apply_batch (filter (fun b => u (bkey b)) items) s) = E' /\
+  exact u (apply_batch (filter (fun b => u (bkey b)) items) s).
+Proof.
+  intros Es H3 (m & C & H1 & H2). destruct (ab_etcd (filter (fun b => u (bkey b)) items) s) as [A _].
+  split; [congruence|]. exists (bapply m (filter (fun b => u (bkey b)) items)). split; [apply ab_cvals; assumption|].
+  intro k. rewrite A, Es. apply batch_pass; assumption.
+Qed.
+
 Definition inv (u : key -> bool) (st : bool * bool) (s : state) : Prop :=
   NoDup (map fst (etcd s)) /\
   (fst st = true -> watching s) /\
@@ -208,7 +303,7 @@ Definition inv (u : key -> bool) (st : bool * bool) (s : state) : Prop :=
 
 Lemma inv_step u st s e : inv u st s -> inv u (sync_step u st e) (step u true s e).
 Proof.
-  intros (N & W & I & X). destruct e as [k v d|k d|oa od|oc oa od]; simpl.
+  intros (N & W & I & X). destruct e as [k v d|k d|oa od|oc oa od|items]; simpl.
   - (* Put *)
     set (s1 := mkS (kset k v (etcd s)) (S (rev s)) (cvals s) (subs s) (nwatch s)).
     assert (N1 : NoDup (map fst (etcd s1))) by (apply nodup_set; assumption).
@@ -282,6 +377,30 @@ Proof.
       intro H. apply SB in H. simpl in H. destruct (subs s); discriminate.
     + discriminate.
     + intros _ _. destruct (snapshot_exact u s1 oa od N) as (m & Cm & A). exists m. split; assumption.
+  - (* Batch *)
+    set (E' := fold_left bev_step items (etcd s)).
+    set (s1 := mkS E' (length items + rev s) (cvals s) (subs s) (nwatch s)).
+    set (evs := filter (fun b => u (bkey b)) items).
+    assert (H3 : forall k r, bget k items = Some r -> kget k E' = r).
+    { intros k r B. unfold E'. fold (bapply (etcd s) items). rewrite kget_bapply, B. reflexivity. }
+    assert (HN : forall k, bget k items = None -> kget k E' = kget k (etcd s)).
+    { intros k B. unfold E'. fold (bapply (etcd s) items). rewrite kget_bapply, B. reflexivity. }
+    assert (ET : forall n s0, etcd (iter n (apply_batch evs) s0) = etcd s0).
+    { induction n; intro s0; simpl; [reflexivity|]. rewrite IHn. apply ab_etcd. }
+    split; [rewrite ET; apply (nodup_bapply items); assumption|]. split; [|split].
+    + intro L. apply iter_inv; [apply ab_watching|]. apply (W L).
+    + intro L. destruct (I L) as (A & B & C). rewrite B. simpl. repeat split; assumption.
+    + intros L O. destruct (W L) as (_ & NW & _). specialize (X L O). destruct X as (m & C & A).
+      destruct (nwatch s) as [|n]; [lia|]. simpl.
+      assert (P1 : etcd (apply_batch evs s1) = E' /\ exact u (apply_batch evs s1)).
+      { apply batch_exact; [reflexivity|assumption|]. exists m. split; [assumption|]. split.
+        - intros k U. rewrite A, U. reflexivity.
+        - intros k U B. rewrite A, U. symmetry. apply HN. assumption. }
+      apply (iter_inv (fun s' => etcd s' = E' /\ exact u s')); [|assumption].
+      intros s' [Es' (m' & C' & A')]. apply batch_exact; [assumption|assumption|].
+      exists m'. split; [assumption|]. split.
+      * intros k U. rewrite A', U. reflexivity.
+      * intros k U _. rewrite A', U, Es'. reflexivity.
 Qed.
 
 Lemma run_inv u h : inv u (sync_state u h) (run u h).
@@ -304,7 +423,7 @@ Lemma etcd_spec u h : forall k, kget k (etcd (run u h)) = kget k (spec_etcd h).
 Proof.
   induction h as [|e h IH] using rev_ind; intro k; [reflexivity|].
   rewrite run_snoc. unfold spec_etcd. rewrite fold_left_app. fold (spec_etcd h). simpl.
-  destruct e as [k0 v d|k0 d|oa od|oc oa od]; simpl.
+  destruct e as [k0 v d|k0 d|oa od|oc oa od|items]; simpl.
   - destruct (d && u k0).
     + destruct (etcd_iter_put k0 v (nwatch (run u h)) (mkS (kset k0 v (etcd (run u h))) (S (rev (run u h))) (cvals (run u h)) (subs (run u h)) (nwatch (run u h)))) as [-> _].
       simpl. rewrite !kget_kset, IH. reflexivity.
@@ -320,6 +439,8 @@ Proof.
     destruct (hc_fields oa od (snapshot_of u (run u h)) (run u h)) as (E & _). rewrite E. apply IH.
   - match goal with |- kget k (etcd (handle_changes true oa od ?kv ?s1)) = _ =>
       destruct (hc_fields oa od kv s1) as (E & _); rewrite E end. simpl. apply IH.
+  - rewrite (proj1 (etcd_iter_batch _ _ _)). simpl. fold (bapply (etcd (run u h)) items). fold (bapply (spec_etcd h) items).
+    rewrite !kget_bapply, IH. reflexivity.
 Qed.
 
 (* ------------------------------------------------------------------ maps whose values are vf *)
@@ -531,9 +652,25 @@ Qed.
 Lemma subs_iter_nil f n s : (forall s, subs (f s) = [] <-> subs s = []) -> (subs (iter n f s) = [] <-> subs s = []).
 Proof. intro H. revert s. induction n; simpl; intro s; [tauto|]. rewrite IHn. apply H. Qed.
 
+Definition bev_ok (vf : key -> val) (b : bev) : Prop := match b with BPut k v => v = vf k | BDel _ => True end.
+
+Lemma typed_bapply vf items : forall m, Forall (bev_ok vf) items -> typed vf m -> typed vf (bapply m items).
+Proof.
+  induction items as [|b items IH]; intros m F T; [assumption|]. inversion F; subst. cbn [bapply fold_left]. apply IH; [assumption|].
+  destruct b; [apply typed_kset|apply typed_kdel]; assumption.
+Qed.
+
+Lemma ab_linv vf evs : Forall (bev_ok vf) evs -> forall s,
+  (typed vf (cur s) /\ Forall (log_ok vf (cur s)) (subs s)) ->
+  (typed vf (cur (apply_batch evs s)) /\ Forall (log_ok vf (cur (apply_batch evs s))) (subs (apply_batch evs s))).
+Proof.
+  induction evs as [|b evs IH]; intros F s H; [assumption|]. inversion F; subst. rewrite ab_cons. apply IH; [assumption|].
+  destruct b; [apply linv_put|apply linv_del]; assumption.
+Qed.
+
 Lemma linv_step vf u s e : ev_ok vf e -> linv vf s -> linv vf (step u true s e).
 Proof.
-  intros Ok L0. pose proof L0 as (Te & Tc & F & Z). destruct e as [k v d|k d|oa od|oc oa od]; simpl in *.
+  intros Ok L0. pose proof L0 as (Te & Tc & F & Z). destruct e as [k v d|k d|oa od|oc oa od|items]; simpl in *.
   - set (s1 := mkS (kset k v (etcd s)) (S (rev s)) (cvals s) (subs s) (nwatch s)).
     assert (L1 : typed vf (etcd s1)) by (apply typed_kset; assumption).
     destruct (d && u k).
@@ -583,6 +720,19 @@ Proof.
     destruct H as (A & B & C & D). split; [assumption|]. split; [assumption|]. split; [assumption|].
     simpl. intro H. destruct (hc_fields oa od (snapshot_of u s1) s1) as (_ & _ & _ & _ & SB). apply SB in H. simpl in H.
     destruct (subs s); discriminate.
+  - set (evs := filter (fun b => u (bkey b)) items).
+    set (s1 := mkS (fold_left bev_step items (etcd s)) (length items + rev s) (cvals s) (subs s) (nwatch s)).
+    assert (Fe : Forall (bev_ok vf) evs).
+    { apply Forall_forall. intros b Hb. apply filter_In in Hb as [Hb _]. eapply Forall_forall in Ok; eauto. }
+    destruct (etcd_iter_batch evs (nwatch s) s1) as [E1 E2].
+    assert (P : typed vf (cur (iter (nwatch s) (apply_batch evs) s1)) /\
+                Forall (log_ok vf (cur (iter (nwatch s) (apply_batch evs) s1))) (subs (iter (nwatch s) (apply_batch evs) s1))).
+    { apply (iter_inv (fun s' => typed vf (cur s') /\ Forall (log_ok vf (cur s')) (subs s'))).
+      - intros s' H. apply ab_linv; assumption.
+      - split; assumption. }
+    destruct P as [P1 P2]. split; [rewrite E1; apply (typed_bapply vf items); assumption|]. split; [assumption|]. split; [assumption|].
+    intro H. apply subs_iter_nil in H; [|intro s'; rewrite ab_subs; destruct (subs s'); simpl; split; congruence].
+    simpl in H. destruct (Z H) as [Z1 Z2]. subst s1. rewrite Z2. simpl. split; auto.
 Qed.
 
 Lemma run_linv vf u h : consistent vf h -> linv vf (run u h).
@@ -1260,3 +1410,159 @@ Lemma resolver_push_first_loses :
   r_todo r = [] /\ r_pushes r = [Ok []] /\
   option_map (fun ops => fst (get_values (crun false ops))) (r_ops r) = Some (Ok [7]).
 Proof. vm_compute. repeat split; reflexivity. Qed.
+
+(* ------------------------------------------------------------------ batches reach listeners in order *)
+Lemma batch_reaches u h items :
+  subs (run u (h ++ [Batch items])) =
+  map (fun l => l ++ concat (repeat (map bcall (filter (fun b => u (bkey b)) items)) (nwatch (run u h))))
+      (subs (run u h)).
+Proof.
+  rewrite run_snoc. simpl. generalize (nwatch (run u h)) as n.
+  set (evs := filter (fun b => u (bkey b)) items).
+  assert (G : forall n s, subs (iter n (apply_batch evs) s) = map (fun l => l ++ concat (repeat (map bcall evs) n)) (subs s)).
+  { induction n; intro s; simpl.
+    - rewrite <- (map_id (subs s)) at 1. apply map_ext. intro l. rewrite app_nil_r. reflexivity.
+    - rewrite IHn, ab_subs, map_map. apply map_ext. intro l. rewrite <- app_assoc. reflexivity. }
+  intro n. rewrite G. reflexivity.
+Qed.
+
+(* ------------------------------------------------------------------ a reload re-syncs every listened prefix *)
+Lemma subs_loaded u h : subs (run u h) <> [] -> fst (sync_state u h) = true.
+Proof.
+  intro H. destruct (run_inv u h) as (_ & _ & I & _). destruct (fst (sync_state u h)); [reflexivity|].
+  destruct (I eq_refl) as (A & _). contradiction.
+Qed.
+
+Lemma reload_resyncs u h oa od : subs (run u h) <> [] -> synced u (h ++ [Reload oa od]) = true.
+Proof.
+  intro H. unfold synced. rewrite sync_snoc. simpl. rewrite (subs_loaded u h H). rewrite orb_true_r. reflexivity.
+Qed.
+
+(* ------------------------------------------------------------------ several prefixes *)
+Lemma project_snoc_ev i h e : project i (h ++ [MEv e]) = project i h ++ [e].
+Proof. unfold project. rewrite flat_map_app. simpl. reflexivity. Qed.
+
+Lemma every_prefix_reloaded us h oa od i : subs (mrun us h i) <> [] ->
+  synced (us i) (project i (h ++ [MEv (Reload oa od)])) = true /\
+  exists m, cvals (mrun us (h ++ [MEv (Reload oa od)]) i) = Some m /\
+            forall k, kget k m = if us i k then kget k (etcd (mrun us (h ++ [MEv (Reload oa od)]) i)) else None.
+Proof.
+  intro H. unfold mrun in *. rewrite project_snoc_ev.
+  pose proof (reload_resyncs (us i) (project i h) oa od H) as Sy. split; [assumption|]. apply cluster_tracks. assumption.
+Qed.
+
+(* ------------------------------------------------------------------ the publisher *)
+Definition pgood (id : option nat) (v : val) (s : pstate) : Prop :=
+  match p_mode s with
+  | PActive => p_store s = [(full_key id (p_lease s), p_lease s)] /\
+               forall k', kget k' (spec_etcd (p_events s)) = if Nat.eqb k' (full_key id (p_lease s)) then Some v else None
+  | _ => p_store s = [] /\ forall k', kget k' (spec_etcd (p_events s)) = None
+  end.
+
+Lemma spec_etcd_snoc h e : spec_etcd (h ++ [e]) = spec_step (spec_etcd h) e.
+Proof. unfold spec_etcd. rewrite fold_left_app. reflexivity. Qed.
+
+Lemma p_revoke_active id v s : p_mode s = PActive -> pgood id v s ->
+  p_store (p_revoke s) = [] /\ (forall k', kget k' (spec_etcd (p_events (p_revoke s))) = None) /\
+  p_mode (p_revoke s) = PActive /\ p_next (p_revoke s) = p_next s /\ p_lease (p_revoke s) = p_lease s.
+Proof.
+  unfold pgood. intros M G. rewrite M in G. destruct G as [St Em]. unfold p_revoke. rewrite St. simpl.
+  rewrite Nat.eqb_refl. simpl. split; [reflexivity|]. split; [|auto]. intro k'. rewrite spec_etcd_snoc. simpl.
+  rewrite kget_kdel, Em. destruct (Nat.eqb k' (full_key id (p_lease s))); reflexivity.
+Qed.
+
+Lemma p_revoke_empty s : p_store s = [] -> p_revoke s = s.
+Proof. intro E. unfold p_revoke. rewrite E. simpl. rewrite app_nil_r. destruct s; simpl in *; subst; reflexivity. Qed.
+
+Lemma p_register_good id v s : p_store s = [] -> (forall k', kget k' (spec_etcd (p_events s)) = None) ->
+  pgood id v (p_register id v s).
+Proof.
+  intros St Em. unfold pgood, p_register. simpl. rewrite St. simpl. split; [reflexivity|]. intro k'.
+  rewrite spec_etcd_snoc. simpl. rewrite kget_kset, Em. reflexivity.
+Qed.
+
+Lemma pstep_good id v s o : pgood id v s -> pgood id v (pstep id v s o).
+Proof.
+  intro G. unfold pstep. destruct o as [|ex| | |]; destruct (p_mode s) eqn:M; try assumption.
+  - unfold pgood in G. rewrite M in G. destruct G. apply p_register_good; assumption.
+  - destruct ex.
+    + destruct (p_revoke_active id v s M G) as (A & B & C & _). rewrite (p_revoke_empty (p_revoke s) A).
+      apply p_register_good; assumption.
+    + destruct (p_revoke_active id v s M G) as (A & B & C & _). apply p_register_good; assumption.
+  - destruct (p_revoke_active id v s M G) as (A & B & C & _). unfold pgood. simpl. split; assumption.
+  - unfold pgood in G. rewrite M in G. destruct G. apply p_register_good; assumption.
+  - destruct (p_revoke_active id v s M G) as (A & B & C & _). unfold pgood. simpl. split; assumption.
+  - unfold pgood in *. rewrite M in G. simpl. assumption.
+Qed.
+
+Lemma prun_good id v ops : pgood id v (prun id v ops).
+Proof.
+  unfold prun. induction ops as [|o ops IH] using rev_ind.
+  - unfold pgood; simpl. split; reflexivity.
+  - rewrite fold_left_app. simpl. apply pstep_good. assumption.
+Qed.
+
+(* what the store emitted: delivered puts of v and delivered deletes *)
+Definition pev_ok (v : val) (e : ev) : Prop :=
+  match e with Put _ v' true => v' = v | Del _ true => True | _ => False end.
+
+Lemma p_revoke_events v s : Forall (pev_ok v) (p_events s) -> Forall (pev_ok v) (p_events (p_revoke s)).
+Proof.
+  intro F. unfold p_revoke; simpl. apply Forall_app. split; [assumption|]. apply Forall_forall. intros e H.
+  apply in_map_iff in H as (kl & <- & _). exact I.
+Qed.
+
+Lemma p_register_events id v s : Forall (pev_ok v) (p_events s) -> Forall (pev_ok v) (p_events (p_register id v s)).
+Proof. intro F. unfold p_register; simpl. apply Forall_app. split; [assumption|]. constructor; [reflexivity|constructor]. Qed.
+
+Lemma prun_events id v ops : Forall (pev_ok v) (p_events (prun id v ops)).
+Proof.
+  unfold prun. induction ops as [|o ops IH] using rev_ind; [constructor|]. rewrite fold_left_app. simpl.
+  set (s := fold_left (pstep id v) ops pinit) in *. unfold pstep.
+  destruct o as [|ex| | |]; destruct (p_mode s); try assumption.
+  - apply p_register_events; assumption.
+  - apply p_register_events, p_revoke_events. destruct ex; [apply p_revoke_events|]; assumption.
+  - cbn [p_events]. apply p_revoke_events; assumption.
+  - apply p_register_events; assumption.
+  - cbn [p_events]. apply p_revoke_events; assumption.
+Qed.
+
+Lemma sync_delivered u v evs : Forall (pev_ok v) evs -> forall h, sync_state u (h ++ evs) = sync_state u h.
+Proof.
+  induction evs as [|e evs IH] using rev_ind; intros F h; [rewrite app_nil_r; reflexivity|].
+  apply Forall_app in F as [F1 F2]. inversion F2; subst. rewrite app_assoc, sync_snoc, IH by assumption.
+  destruct e as [k v' [|]|k [|]| | |]; simpl in *; try contradiction;
+    rewrite andb_true_r; destruct (sync_state u h); reflexivity.
+Qed.
+
+Lemma consistent_delivered v evs : Forall (pev_ok v) evs -> consistent (fun _ => v) evs.
+Proof.
+  intro F. eapply Forall_impl; [|exact F]. intros e H. destruct e as [k v' [|]|k [|]| | |]; simpl in *; try contradiction; auto.
+Qed.
+
+(* a subscriber that was there before the publisher started lists the instance iff the publisher is active *)
+Lemma publisher_view id v ops u log cops :
+  let s := prun id v ops in
+  let h := Subscribe [] [] [] :: p_events s in
+  In log (subs (run u h)) -> calls_of cops = log ->
+  exists vs, fst (get_values (crun false cops)) = Ok vs /\ NoDup vs /\
+    forall v', In v' vs <-> (p_mode s = PActive /\ u (full_key id (p_lease s)) = true /\ v' = v).
+Proof.
+  intros s h Hin E.
+  assert (F : Forall (pev_ok v) (p_events s)) by apply prun_events.
+  assert (C : consistent (fun _ => v) h) by (constructor; [exact I|apply consistent_delivered; assumption]).
+  assert (Sy : synced u h = true).
+  { unfold synced, h. change (Subscribe [] [] [] :: p_events s) with ([Subscribe [] [] []] ++ p_events s).
+    rewrite (sync_delivered u v _ F). reflexivity. }
+  destruct (converges_shared u _ h C Sy log Hin cops E) as (vs & G & Nd & Iv).
+  exists vs. split; [assumption|]. split; [assumption|]. intro v'. rewrite Iv. unfold live.
+  assert (SE : spec_etcd h = spec_etcd (p_events s)) by reflexivity. rewrite SE.
+  pose proof (prun_good id v ops) as PG. fold s in PG. unfold pgood in PG. destruct (p_mode s) eqn:M.
+  - destruct PG as [_ Em]. split; [intros (k & _ & H); rewrite Em in H; discriminate|intros (H & _); discriminate].
+  - destruct PG as [_ Em]. split.
+    + intros (k & U & H). rewrite Em in H. destruct (Nat.eqb k (full_key id (p_lease s))) eqn:Q; [|discriminate].
+      apply Nat.eqb_eq in Q; subst k. inversion H. auto.
+    + intros (_ & U & ->). exists (full_key id (p_lease s)). split; [assumption|]. rewrite Em, Nat.eqb_refl. reflexivity.
+  - destruct PG as [_ Em]. split; [intros (k & _ & H); rewrite Em in H; discriminate|intros (H & _); discriminate].
+  - destruct PG as [_ Em]. split; [intros (k & _ & H); rewrite Em in H; discriminate|intros (H & _); discriminate].
+Qed.
